@@ -10,6 +10,7 @@ package main
 import (
 	"encoding/json"
 	"fmt"
+	"net/url"
 	"os"
 	"path/filepath"
 	"strings"
@@ -181,6 +182,16 @@ func judgeC09(c *c09Case, lr *liveResult) (clause, what string) {
 	}
 	if !verdictStep(c.Type, c.StepClass, c.StepRaw, faultKind, c.Setup) {
 		return "", ""
+	}
+	if c.Type == "linux" && !c.Compare && lr.Res.Exit != 0 {
+		// Linux saves by copying files: the startup routing file is the
+		// last thing a run writes, so a run that failed at any earlier
+		// step must not have copied it (the copy is observed through the
+		// scp hook, it does not pass the simulated shell).
+		if _, err := os.Stat(filepath.Join(lr.Dir, "scp", url.PathEscape("/etc/network/routing"))); err == nil {
+			return "save-after-fault", fmt.Sprintf("startup routing file /etc/network/routing was copied to the device in a run that failed at step %d (%s: %s, fault %s)",
+				faultOrd, c.StepClass, c.StepRaw, faultKind)
+		}
 	}
 	for _, e := range lr.Events {
 		if e.Ord == faultOrd+1 && e.Joined {
